@@ -238,7 +238,7 @@ PROPS = {
         "modes": [{"name": "srvseq-random", "harness": "srvseq", "modelcheck": "srvseq", "args": ["random"]},
                   {"name": "srvseq-product", "harness": "srvseq", "modelcheck": "srvseq", "args": ["product"]}],
         "rule": "real server + scripted implementation over net.Pipe, one request at a time: random histories of 20-80 (thorough: up to 2000) requests over the fid numbers {0,1,2,7,NOFID-1,NOFID} (attach/auth/walk full, partial, failing, in place/open/create/read/write/stat/clunk/remove/flush) with implementation success or error, Tstat probes on every fid of the universe, both dialects, with and without AuthOps, msize from 24 up; plus the exhaustive (fid state x request) product. Every reply (bytes) and every event (forwarded operation with fid/user/arguments, AuthCheck, FidDestroy, ConnClosed) is compared with the Coq model seq_step; the oracle maintains the abstract fid set from the replies (spec_step) and checks unknown-fid / fid-in-use refusals, user binding, destroy-exactly-once. Non-trivial: >= 3 requests with at least one forwarded; distinct by content.",
-        "level_text": "Coq theorems (Props/C04.v) over the sequential server model (Process, PostProcess, FidGet/FidNew/IncRef/DecRef, every srv.<op> handler and post-handler): for EVERY history and whatever the implementation answers, each remaining fid has exactly one reference between requests, the concrete table equals the abstract fid set the statement defines (valid only via successful Tauth/Tattach/complete Twalk, invalid after successful Tclunk or any Tremove, unchanged otherwise, users preserved), invalid fids are refused with 'unknown fid' and bound fids with 'fid already in use' without reaching the implementation, and FidDestroy is emitted exactly once, in the step that invalidates the fid. Tied to the code by byte-exact comparison of replies and event-exact comparison of what the implementation is shown.",
+        "level_text": "Coq theorems (Props/C04.v) over the sequential server model (Process, PostProcess, FidGet/FidNew/IncRef/DecRef, every srv.<op> handler and post-handler): for EVERY history and whatever the implementation answers, each remaining fid has exactly one reference between requests, the concrete table equals the abstract fid set the statement defines (valid only via successful Tauth/Tattach/complete Twalk, invalid after successful Tclunk or any Tremove, unchanged otherwise, users preserved), invalid fids are refused with 'unknown fid' and bound fids with 'fid already in use' without reaching the implementation, and FidDestroy is emitted exactly once, in the step that invalidates the fid. Tied to the code by byte-exact comparison of replies and event-exact comparison of what the implementation is shown. Next to the fid set, the open state and the type bits of every fid are proved to be the functions of the protocol history the statement implies (ospec_step / tspec_step: driven by request and reply only; unchanged by failed, partial or unrelated operations), and the source-side premises (handlers check before they change, FidGet refuses fids being created, order of Respond, fid life time) are re-checked on every run.",
         "level_note": "Trusted: Coq kernel; translator for error texts/numbers, IOHDRSZ/MSIZE/NOFID/NOUID and the QT*/DM*/O* bits; extraction + OCaml driver; the Go harness (scripted implementation, net.Pipe transport). One request at a time (the concurrent life cycle is C03/C07/C08/C11); the user database is the default OsUsers; the implementation is an arbitrary input (script) answering with the matching R-message or an error; the reply buffer is modelled by its capacity. Print Assumptions: closed under the global context. With msize below 13+len(text) the error text is truncated (theorems carry that hypothesis). Fid numbers private to a connection: connections share no fid state in the model (one table per conn), checked by the harness only through separate sessions.",
     },
     "C05": {
@@ -247,7 +247,7 @@ PROPS = {
         "modes": [{"name": "srvseq-product", "harness": "srvseq", "modelcheck": "srvseq", "args": ["product"]},
                   {"name": "srvseq-random", "harness": "srvseq", "modelcheck": "srvseq", "args": ["random"]}],
         "rule": "exhaustive product: fid state {absent, directory, open directory, file, auth fid, file open with each of OREAD/OWRITE/ORDWR/OEXEC and OTRUNC/ORCLOSE variants} x every request kind x open modes (quick: 15 representatives, thorough: all 256) x permission bits {none, DMDIR, each special bit, combinations} x counts {0, 1, msize-25, msize-24, msize-23, msize, 2^31, 2^32-25 .. 2^32-1} x both dialects x AuthOps on/off x AuthCheck accept/refuse, each followed by a Twrite and Tstat probes (effects visible to later requests); plus random histories. Oracle: forwarded <=> fid_ok && rules_ok (the statement's table, evaluated on the reference state), refused => Rerror, forwarded once with the client's fid/user/arguments, AuthCheck before Attach; correspondence: replies and events equal the model's. Non-trivial: >= 3 requests with at least one forwarded; distinct by content.",
-        "level_text": "Coq theorems (Props/C05.v): for EVERY connection state satisfying the invariant, EVERY request (all 32-bit counts, all modes and permission bits) and whatever the implementation: the request is forwarded iff its fid is valid and the statement's rule table allows it; the 32-bit count guard as written equals count+IOHDRSZ <= msize over the naturals; a forwarded request is forwarded once with the fid, user and arguments the client named; a refused one is answered with Rerror; with AuthOps an attach is forwarded only after AuthCheck accepted it; every step re-establishes the state the next request is judged in. Tied to the code by the exhaustive product run.",
+        "level_text": "Coq theorems (Props/C05.v): for EVERY connection state satisfying the invariant, EVERY request (all 32-bit counts, all modes and permission bits) and whatever the implementation: the request is forwarded iff its fid is valid and the statement's rule table allows it; the 32-bit count guard as written equals count+IOHDRSZ <= msize over the naturals; a forwarded request is forwarded once with the fid, user and arguments the client named; a refused one is answered with Rerror; with AuthOps an attach is forwarded only after AuthCheck accepted it; every step re-establishes the state the next request is judged in. Tied to the code by the exhaustive product run. The fid attributes the rule table consults - open or not and in which mode, directory / auth / file - are proved to follow the protocol history (functions of requests and replies only: a refused or failed request changes none of them), so that 'forwarded iff the rules allow it' speaks of the history-determined state, not of the framework's private bookkeeping; the rule 'not open for writing' covers OREAD and OEXEC, the count limit covers authentication fids.",
         "level_note": "Trusted: Coq kernel; translator for error texts/numbers, IOHDRSZ/MSIZE/NOFID/NOUID and the QT*/DM*/O* bits; extraction + OCaml driver; the Go harness (scripted implementation, net.Pipe transport). One request at a time (the concurrent life cycle is C03/C07/C08/C11); the user database is the default OsUsers; the implementation is an arbitrary input (script) answering with the matching R-message or an error; the reply buffer is modelled by its capacity. Print Assumptions: closed under the global context.",
     },
     "C12": {
@@ -257,7 +257,7 @@ PROPS = {
                   {"name": "clntver", "harness": "clntver", "modelcheck": "clnt"},
                   {"name": "srvseq-random", "harness": "srvseq", "modelcheck": "srvseq", "args": ["random"]}],
         "rule": "clntver (the client's direction): the real client's Connect against a scripted peer answering Rversion with msize far below / 1..25 below / equal to / above the client's proposal (client msize 24 .. 1 MiB+24) and either version string, for clients that do and do not ask for 9P2000.u; then attach, open (reported iounit 0, small, huge, msize-24, msize-23), one Write and one Read with buffers up to 3 x msize: the Tversion sent, the msize and dialect adopted, the largest Twrite frame and the Tread count are compared with Clnt/Version.v (clnt_connect, open_iounit, twrite_frame_len, tread_count); oracle: adopted msize = min, no frame above it, dialect conjunction. grid server msize x client msize over {0, 1, 23, 24, 25, 64, 100, 4096, 8191, 8192, 8193, 1 MiB+24, 2^32-1} x server dialect x version strings {9P2000, 9P2000.u, 9P2000.L, empty, junk, near misses}; after negotiation replies of every kind incl. a 255-byte-name Rstat, 16-qid Rwalk, 300-byte Rerror, reads with counts up to the limit, and a second Tversion lowering msize mid-session so replies go through recycled buffers; random histories with frames above msize. Oracle: Rversion = min / dialect conjunction, small msize refused, no reply longer than the msize in force, replies decodable in the negotiated dialect, oversize or undecodable frames answered by nothing and executing nothing. Non-trivial: >= 3 requests with at least one forwarded; distinct by content.",
-        "level_text": "Coq theorems (Props/C12.v): Tversion yields exactly min(client msize, connection msize) and 9P2000.u only if the client asked for it and the server supports it, an msize below IOHDRSZ is refused leaving the connection unchanged; for EVERY later request and whatever the implementation answers no reply is longer than the msize in force when the request arrived (too long replies and error texts are replaced/truncated as the code does); msize stays within [IOHDRSZ, server msize]; the framing specification the receive loop is proved equal to (C13) never delivers a frame above msize or below a header. Tied to the code by the negotiation grid with byte-exact reply comparison.",
+        "level_text": "Coq theorems (Props/C12.v): Tversion yields exactly min(client msize, connection msize) and 9P2000.u only if the client asked for it and the server supports it, an msize below IOHDRSZ is refused leaving the connection unchanged; for EVERY later request and whatever the implementation answers no reply is longer than the msize in force when the request arrived (too long replies and error texts are replaced/truncated as the code does); msize stays within [IOHDRSZ, server msize]; the framing specification the receive loop is proved equal to (C13) never delivers a frame above msize or below a header. Tied to the code by the negotiation grid with byte-exact reply comparison. The client's direction: Connect adopts exactly min(own, server's) msize and 9P2000.u only if it asked for it and the server answered with it; composed with the server's Tversion handler, both sides hold the same msize and dialect after the exchange, for every state of the connection; with the iounit the client derives, no Twrite frame it sends and no Rread it asks for exceeds the negotiated msize for every reported iounit and buffer length.",
         "level_note": "Trusted: Coq kernel; translator for error texts/numbers, IOHDRSZ/MSIZE/NOFID/NOUID and the QT*/DM*/O* bits; extraction + OCaml driver; the Go harness (scripted implementation, net.Pipe transport). One request at a time (the concurrent life cycle is C03/C07/C08/C11); the user database is the default OsUsers; the implementation is an arbitrary input (script) answering with the matching R-message or an error; the reply buffer is modelled by its capacity. Print Assumptions: closed under the global context. Rread never carrying more than Tread asked for is the Ufs read model of C14 (pread clamps to count); the client side of the negotiation (Connect adopting min / conjunction) is exercised by the C09/C10/C14 harness sessions, not modelled.",
     },
     "C09": {
@@ -309,7 +309,7 @@ PROPS = {
                   {"name": "clntseg", "harness": "clntseg", "modelcheck": "recv"},
                   {"name": "clnt", "harness": "clnt", "modelcheck": "clnt"}],
         "rule": "clntseg (the client's loop): a client with msize 64..256 has 20-150 calls outstanding, so that the reply stream fills its 8 x msize receive buffer several times; the scripted peer answers all of them in one stream (Rread with 0..msize-11 data bytes derived from the tag - frames of exactly msize bytes included -, some Rerror, sometimes a bad frame at the end) delivered whole, in pieces of 1..500 bytes and of the buffer size +-, and cut at random points; the frames the callers are handed and the fate of the connection are compared with the Coq loop (clnt_run: buffer length / position bookkeeping, growth in the middle of a message) and between the segmentations of one stream. request streams of 8-40 independent messages (tiny and near-msize Twrite payloads, unknown fids, flushes, walks) with msize 64..4096 so the 8*msize buffer wraps and is reallocated, some ending in an oversize / undersize / undecodable frame; each stream is fed to the real server through a transport whose Read returns exactly the chosen segments: whole stream, every single split point (sampled in quick), one byte at a time, 30 random k-way splits. Oracle: delivered requests (tag, type, frame md5, payload md5 at delivery and at the end), reply bytes and close decision identical to the reference segmentation; correspondence: the Coq loop model on the same segments delivers the same frames and closes iff the server does. Non-trivial: >= 2 segments; distinct by (stream, segmentation).",
-        "level_text": "Coq theorems (Props/C13.v): the model of both receive loops (buffer length/pos bookkeeping, inner framing loop, size check, reallocation, parameters re-read after a synchronous Tversion) delivers, for ANY segmentation of the stream into transport reads, exactly the frames of a framing specification that is a function of the concatenated stream only; it closes on a bad frame iff the specification does; it never issues an empty Read; the buffer stays within 8*msize. Unbounded in stream length, message count and segmentation. Tied to the code by running the real server under thousands of segmentations and comparing with the model.",
+        "level_text": "Coq theorems (Props/C13.v): the model of both receive loops (buffer length/pos bookkeeping, inner framing loop, size check, reallocation, parameters re-read after a synchronous Tversion) delivers, for ANY segmentation of the stream into transport reads, exactly the frames of a framing specification that is a function of the concatenated stream only; it closes on a bad frame iff the specification does; it never issues an empty Read; the buffer stays within 8*msize. Unbounded in stream length, message count and segmentation. Tied to the code by running the real server under thousands of segmentations and comparing with the model. Both loops are tied to the code: the server's and - through the clntseg mode - the client's, with reply streams that cross the end of the 8 x msize receive buffer.",
         "level_note": "Trusted: Coq kernel; translator for the 8*msize buffer factor and IOHDRSZ; extraction and OCaml driver; the Go harness (segment-exact fake net.Conn, hook recv.enqueued as delivery log). The loop model calls the decoder on the accumulated bytes and relies on C02's prefix-only theorem for the stale bytes behind pos; payload immutability is proved on the memory model Recv/Views.v (any reads, deliveries, reallocations; in-buffer compaction refuted), tied to the source by the shape fact that every copy in a receive loop goes into a freshly allocated buffer, and checked by the harness (payload md5 at delivery vs. at the end); the client loop is proved on the model and tied through the C09/C10 client harness. Print Assumptions: closed under the global context.",
         "assumptions": ["net.Conn.Read returns between 1 and len(p) bytes of the stream in order"],
     },
